@@ -35,6 +35,15 @@ class Broken(Exception):
         self.detail = detail
 
 
+class Hang(Broken):
+    """A call of the implementation did not return on a scripted port on which every call of the model returns: a
+    concrete history on which the property (which speaks about what the call returns) fails."""
+
+    def __init__(self, what, line):
+        super().__init__(what, line)
+        self.line = line
+
+
 def sh(cmd, cwd=None, env=None, timeout=None, stdin=None, check=False):
     p = subprocess.run(cmd, cwd=cwd, env=env, timeout=timeout, input=stdin,
                        stdout=subprocess.PIPE, stderr=subprocess.STDOUT, text=True, errors="replace",
